@@ -25,7 +25,11 @@ FAULTS = {
                   'lui x1, %hi(nowhere)', 'addi x1, x1, %lo(nowhere)', 'dw %offset(nowhere)', 'pack <I UNDEF',
                   'li x5, %position(nowhere, 4)'],
     'expression': ['addi x1, x1, 1 +', 'addi x1, x1, 1.5', 'li x1, 3 / 2', "X9 = 'ab'", 'dw 1 + * 2', 'addi x1, x1, (1',
-                   'li x1, 1 << ', 'andi x8, x8, ~', 'X9 = 1 ===', 'db 0.5', 'li x1, "s"', 'addi x1, x1, [1]'],
+                   'li x1, 1 << ', 'andi x8, x8, ~', 'X9 = 1 ===', 'db 0.5', 'li x1, "s"', 'addi x1, x1, [1]',
+                   # truncated / over-long modifier expressions (parse_immediate unpacks tuples: D21)
+                   'addi x1, x1, %hi(', 'addi x1, x1, %lo', 'lui x1, %hi', 'li x1, %position(', 'li x1, %position(start',
+                   'dw %offset(', 'addi x1, x1, %offset start start', 'dw %position', 'X9 = %lo(', 'lw x8, %lo((x9)'],
+    'range-align': ['align 0'],
     'error-directive': ['error stop here', 'error unsupported configuration: 42'],
 }
 DATA_CLASSES = {'range-data'}
@@ -55,7 +59,7 @@ def neutral(cls, fault):
         head = fault.split()[0]
         return {'db': 'db 0', 'dh': 'dh 0', 'dw': 'dw 0', 'dd': 'dd 0', 'bytes': 'bytes 1 2 3', 'shorts': 'shorts 1',
                 'ints': 'ints 1', 'pack': 'pack <' + fault.split()[1][-1] + ' 0'}.get(head, 'dw 0')
-    if cls in ('error-directive', 'duplicate-label', 'missing-include'):
+    if cls in ('error-directive', 'duplicate-label', 'missing-include', 'range-align'):
         return ''
     if fault.split()[0] in ('li', 'call', 'tail') or fault.startswith('X9'):
         return 'lui x1, 74565\naddi x1, x1, 1656'.replace('\n', ' # ') if False else ('X9 = 1' if fault.startswith('X9') else 'li x1, 0x12345678')
@@ -107,7 +111,7 @@ def expect_at(ctx, asm, src, compress, file, lineno, cls, fault, include_dirs=No
 def explore(ctx):
     asm = harness.real_asm()
     rng = ctx.rng
-    ctx.rule = ('one faulty line of each class (operand out of range incl. data, unknown register, undefined label / constant, '
+    ctx.rule = ('one faulty line of each class (operand out of range incl. data and align 0, unknown register, undefined label / constant, '
                 'malformed or non-integer expression, error directive, duplicate label, missing include) planted at every '
                 'position of small valid programs, top level and include depth 1-3, compression off and on; non-trivial = '
                 'distinct (class, fault line, mode, include depth) reported at the right place')
